@@ -174,12 +174,37 @@ def replay_file(path):
     return 0
 
 
+F27_PROGRAM = """.decl f(x:float)
+f(0.0). f(-0.0). f(1.5).
+.decl cnt(c:number)
+.output cnt
+cnt(c) :- c = count : { f(_) }.
+.decl eq(x:float, y:float)
+.output eq
+eq(x, y) :- f(x), f(y), x = y.
+"""
+
+
+def probes(st):
+    """known finding F27 (negative zero): excluded by construction (the generator's float pool has no -0.0), re-probed here"""
+    for f in common.findings_for(PID):
+        if f["key"] == "F27":
+            try:
+                judge({"subs": [{"text": F27_PROGRAM, "facts": {}, "prefix": "", "plain": F27_PROGRAM, "model": None, "types": None}],
+                       "mode": "-c", "j": "-j1"}, None, attribute=False)
+            except Violation:
+                st.known_lines.append(f["what"])
+            except (Discard, Inconclusive):
+                st.known_lines.append(f["what"])
+
+
 def main(tier, seed):
     t0 = time.time()
     total = 28 if tier == "quick" else 600
     if os.environ.get("VERIF_N"):
         total = int(os.environ["VERIF_N"])
     st = common.run_sharded(worker, seed, total, {"tier": tier}, shards=14)
+    probes(st)
     extra = {"programs": st.extra.get("programs", 0), "disagreements_checked": 0}
     return common.finish(PID, tier, seed, "exploration", st, RULE, t0, replay_fn=replay_case, extra=extra,
                          assumptions=["generated C++ is compiled through the souffle-compile.py of the verification build (-O1, hooks on)",
